@@ -102,6 +102,17 @@ def random_scope(rng, n):
             l = sorted(rng.choice(pool) for _ in range(k))
             yield l, mk()
             continue
+        if c % 25 in (9, 19):
+            # magnitudes at which arithmetic on the elements (differences, products, midpoints) underflows to 0.0 or overflows to inf, while the
+            # comparisons the helpers are specified by stay exact: probes just outside and just inside the stored span
+            scale = rng.choice([1e-170, 1e-200, 1e-165, 3e-162, 1e-300, 5e-324, 1e300, 1.5e154, -1e-180, 1e-310])
+            k = rng.randrange(1, 9)
+            pool = [scale * j for j in rng.sample(range(1, 12), min(k, 6))]
+            l = sorted(rng.choice(pool) for _ in range(k))
+            lo, hi = l[0], l[-1]
+            x = rng.choice([lo - abs(scale), hi + abs(scale), lo, hi, lo - abs(scale) / 2, hi + abs(scale) / 2, (lo + hi) / 2, rng.choice(pool), 0.0, -abs(scale)])
+            yield l, x
+            continue
         if c % 25 == 16:
             # runs of exactly 7 / 8 / 9 / 16 / 17 equal elements inside a longer list, probed at the run's value and next to it
             run = rng.choice([7, 8, 9, 15, 16, 17, 32, 33])
